@@ -11,6 +11,7 @@ open FormulaeModel
 #print axioms C03.C03_pipeline_false
 #print axioms C03.C03_columns_count
 #print axioms C03.C03_pick_contrasts_columns
+#print axioms C03.C03_widths_one
 #print axioms C03.C03_hierarchical
 #print axioms C03.C03_pipeline_partial
 #print axioms C03.C03_pipeline_partial_holds
